@@ -661,6 +661,8 @@ func (ss *SpecSet) ParseSpecFile(file, pkgPath string) error {
 				panic(fmt.Errorf("%s:%d: %v", file, lno, e))
 			}
 			curL.Uses = append(curL.Uses, UseSpec{Key: qual(name), Args: formals, Results: results})
+		case "load":
+			// load <repo-relative dir>: also load that package with source (so its functions can be inlined); handled by the driver
 		case "global":
 			f := strings.Fields(rest)
 			if len(f) != 2 {
